@@ -6,7 +6,10 @@
    2 DAMAGE: frames damaged_frame obs* has_tree [tree]    obs = procs objs outcome; for in-block
              damage the block's message tree follows (code 4: the L1 model does not say Err on it)
    3 WHOLE : frames obs*                  a complete valid file
-   4 TRAILER: as DAMAGE; zlib stream without its adler32 trailer, data intact (see check_trailer)
+   4 TRAILER: as DAMAGE; bytes after a complete zlib stream, data intact (see check_trailer)
+   5 SKIPDMG: sn sw sr frames damaged_frame obs* tree   in-block damage inside a skipped element
+             kind (see check_skipdmg; code 4: the L1 model does not say Err without the flags, or
+             not Ok with the frame's number of objects under them)
    outcome: 0 Err()=nil, 1 Err()<>nil, 2 process crashed, 3 hang.
    codes: 1 = model <> implementation, 2 = property oracle fails on the observation,
           3 = the runs do not partition 0..size, 0 = case does not parse. *)
@@ -104,11 +107,33 @@ Definition check_whole : P (list Z) :=
             && valid_file fs && negb (Nat.eqb (length obs) 0) in
   ret (code_if j1 1 ++ code_if j2 2)%list.
 
-(* 4 TRAILER: like DAMAGE, for a zlib stream whose adler32 trailer (and last byte) is missing while
-   the data are intact.  compress/zlib reports it, czlib does not when the inflated length equals
-   raw_size.  The property is satisfied either way: an error after the intact blocks, or success
-   with every object (nothing invented, nothing lost).  The frames carry the strict inflater's
-   verdict (InflErr); the lenient reading replaces it by "inflates to raw_size". *)
+(* 5 SKIPDMG: sn sw sr frames di obs* tree -- in-block damage INSIDE an element kind the scan skips
+   (the tree of block di has the damage; the frames describe the file under the skip flags, block
+   di not in error).  The kind is not read (C06/Skip.v), so: success with every object of the
+   other kinds.  Judgement 4: the L1 model says Err for the tree when nothing is skipped (the
+   damage is real) and Ok with as many objects as the frame holds under the case's flags. *)
+Definition cfg_skip (sn sw sr : bool) : Verif.Pbf.Model.cfg :=
+  Verif.Pbf.Model.mkCfg sn sw sr (fun _ => true) (fun _ => true) (fun _ => true).
+
+Definition check_skipdmg : P (list Z) :=
+  sn <- pbool ;; sw <- pbool ;; sr <- pbool ;;
+  fs <- pframes ;; di <- pnat ;; obs <- plist pobs ;; t <- Verif.Pbf.CheckLib.ptree ;;
+  let r := scan current fs (total_size fs) in
+  let j1 := forallb (fun '(_, objs, oc) => agrees r objs oc) obs in
+  let j2 := forallb (fun '(_, objs, oc) => (oc =? 0) && objs_eqb objs (objs_of fs)) obs
+            && valid_file fs && negb (Nat.eqb (length obs) 0) && (sn || sw || sr) in
+  let j4 := l1_err t &&
+            match Verif.Pbf.Model.scan_result (cfg_skip sn sw sr) Verif.Pbf.Model.dstate0 t, nth_error fs di with
+            | Verif.Pbf.Tree.Ok q, Some f => Nat.eqb (length q) (length (frame_objs f))
+            | _, _ => false
+            end in
+  ret (code_if j1 1 ++ code_if j2 2 ++ code_if j4 4)%list.
+
+(* 4 TRAILER: like DAMAGE, for BYTES FOLLOWING the end of the zlib stream inside zlib_data (the data
+   are intact and raw_size is right).  Both builds ignore them; an error would also satisfy the
+   property: an error after the intact blocks, or success with every object (nothing invented,
+   nothing lost), never a hang.  (A stream WITHOUT its adler32 trailer is plain damage: kind 2.)
+   The frames carry InflTrailing; [fix_trailer] is the identity on them. *)
 Definition fix_trailer (f : frame obj) : frame obj :=
   match f_blob f with
   | BlobOk (Blob (EncZlib rs InflErr) p) =>
@@ -137,6 +162,7 @@ Definition check_case (t : toks) : list Z :=
                else if tag =? 4 then check_damage
                else if tag =? 6 then check_whole
                else if tag =? 8 then check_trailer
+               else if tag =? 10 then check_skipdmg
                else pfail in
       match parse_all p rest with Some codes => codes | None => [0] end
   | [] => [0]
